@@ -16,11 +16,11 @@ import (
 // schedule mode: deviation-bounded stateless exploration of interleavings / timer orders
 
 type SchedArgs struct {
-	Scen   string   `json:"scen"`
-	Devs   [][2]int `json:"devs"`             // (point index, alternative) pairs, ascending
-	ExpIdx int      `json:"expIdx,omitempty"` // the last deviation point must reproduce the parent's enabled sets up to here
-	ExpHash string  `json:"expHash,omitempty"`
-	Trace  bool     `json:"trace,omitempty"`
+	Scen    string   `json:"scen"`
+	Devs    [][2]int `json:"devs"`             // (point index, alternative) pairs, ascending
+	ExpIdx  int      `json:"expIdx,omitempty"` // the last deviation point must reproduce the parent's enabled sets up to here
+	ExpHash string   `json:"expHash,omitempty"`
+	Trace   bool     `json:"trace,omitempty"`
 }
 
 type eligPoint struct {
